@@ -406,8 +406,72 @@ fn builder_limit_part(ctx: &Ctx, res: &mut PartResult) {
     res.sample(json!({"limit": 0, "expected": "no datagram at all"}));
 }
 
+/// The default limit belongs to the transport the exporter finally uses: builders that are given a unix address first and
+/// a UDP address afterwards (defaults overridden from configuration), with no explicit limit, send UDP datagrams of at
+/// most 1432 bytes, exactly like a builder that was given the UDP address alone; and every recorded value arrives.
+fn builder_address_order_part(res: &mut PartResult) {
+    use metrics::Recorder;
+    static META: metrics::Metadata<'static> = metrics::Metadata::new("t", metrics::Level::INFO, None);
+    res.engine = "E4 exporters built through the public builder x order of address options, datagrams read from a UDP socket".into();
+    let mut states = vseq::States::new();
+    const N: usize = 1500;
+    for (oi, order) in [vec!["udp"], vec!["unix", "udp"], vec!["unixgram", "udp"], vec!["udp", "unix", "udp"]].iter().enumerate() {
+        for sampling in [false, true] {
+            let got = vcore::dsd::run_exporter_udp(
+                |mut b, udp| {
+                    for o in order {
+                        let a = match *o {
+                            "udp" => udp.to_string(),
+                            "unix" => "unix:///tmp/c09-never-used.sock".to_string(),
+                            _ => "unixgram:///tmp/c09-never-used.sock".to_string(),
+                        };
+                        b = b.with_remote_address(a).map_err(|e| format!("with_remote_address: {}", e))?;
+                    }
+                    Ok(b.with_histogram_sampling(sampling).send_histograms_as_distributions(true))
+                },
+                |rec| {
+                    let h = rec.register_histogram(&Key::from_name("h"), &META);
+                    for i in 0..N {
+                        // 24 characters each when rendered
+                        h.record(-1.2345678901234567e-100 - i as f64 * 1e-110);
+                    }
+                },
+                std::time::Duration::from_millis(2500),
+                |got| got.iter().map(|d| d.split(|b| *b == b':').count().saturating_sub(1)).sum::<usize>() >= if sampling { 1024 } else { N },
+            );
+            res.executions += 1;
+            res.transitions += N as u64;
+            let cfg = json!({"address_order": order, "sampling": sampling});
+            let got = match got {
+                Ok(g) => g,
+                Err(e) if e.starts_with("machinery") => {
+                    res.error = Some(e);
+                    return;
+                }
+                Err(e) => {
+                    res.violation("documented-limit-rejected", format!("addresses {:?}: {}", order, e), cfg);
+                    continue;
+                }
+            };
+            let longest = got.iter().map(|d| d.len()).max().unwrap_or(0);
+            states.add(&(oi, sampling, longest > 1432));
+            if longest > 1432 {
+                res.violation("payload-exceeds-limit", format!("builder given the addresses {:?} in this order and no explicit limit (histogram sampling {}): the exporter sends over UDP, whose default limit is 1432 bytes, yet a datagram of {} bytes arrived", order, sampling, longest), cfg.clone());
+            }
+            let values: usize = got.iter().flat_map(|d| d.split_inclusive(|b| *b == b'\n')).filter_map(|l| statsd::parse_message(l).ok()).filter(|m| m.name == "h").map(|m| m.values.len()).sum();
+            let want = if sampling { 1024 } else { N };
+            if values != want {
+                res.violation("point-lost-without-being-reported", format!("addresses {:?}, sampling {}: {} of {} histogram values arrived", order, sampling, values, want), cfg.clone());
+            }
+        }
+    }
+    res.states = states.len();
+    res.distinct_outcomes = states.len();
+    res.sample(json!({"addresses": ["unix://…", "127.0.0.1:<port>"], "expected": "UDP datagrams of at most 1432 bytes"}));
+}
+
 fn parts(ctx: &Ctx) -> Vec<PartSpec> {
-    let mut v = vec![PartSpec::new("e3-state-flush-prefix-x-name", json!({"flush_prefix": true})), PartSpec::new("e4-builder-payload-limits", json!({"builder_limit": true})).budget(120.0)];
+    let mut v = vec![PartSpec::new("e3-state-flush-prefix-x-name", json!({"flush_prefix": true})), PartSpec::new("e4-builder-payload-limits", json!({"builder_limit": true})).budget(120.0), PartSpec::new("e4-builder-address-order", json!({"builder_order": true})).budget(120.0)];
     let depth = if ctx.quick() { 3 } else { 4 };
     for lp in [false, true] {
         for (pi, _) in [None, Some("p"), Some("pre")].iter().enumerate() {
@@ -424,6 +488,10 @@ fn parts(ctx: &Ctx) -> Vec<PartSpec> {
 
 fn run(ctx: &Ctx, spec: &PartSpec) -> PartResult {
     let mut res = PartResult::new(&spec.name, "");
+    if spec.arg["builder_order"].as_bool() == Some(true) {
+        builder_address_order_part(&mut res);
+        return res;
+    }
     if spec.arg["builder_limit"].as_bool() == Some(true) {
         builder_limit_part(ctx, &mut res);
         return res;
@@ -441,7 +509,7 @@ fn main() {
     driver::main(CheckDef {
         prop: "C09",
         level: "model_checking",
-        rule: "for every max_payload_len in {0..72 (thorough 0..260), boundary values around the longest payload, 8192} x length prefix {off,on} x prefix {None,p,pre} x global labels {[],[g:1]}: every sequence of the stated depth over 19 operations (counter/gauge with extreme values and optional timestamp, histogram/distribution with 0,1,2,3,40 values incl. NaN / +-inf / -0 / MAX / MIN_POSITIVE and optional sample rate, the same key with two different sample rates, names of length 0..12 and one of 20000 bytes, labels with empty value, drain) on one real PayloadWriter, plus a final drain, with a second, unrelated writer used before every operation (what it emits must equal what it emits when used alone); every drained payload is parsed by an independent DogStatsD parser and matched against the writes since the previous drain (name, type, tags, values in order at round-trip precision, length prefix, size limit, written/dropped accounting); plus, through State::flush (which chooses the prefix and labels a metric gets), every (prefix, name) pair over 6 prefixes incl. the empty one and 12 names that begin with / equal / contain the prefix text, for the three kinds; distinct = distinct (config class, drain shape) states; plus exporters built through the public builder with with_maximum_payload_length(n), n in {0, 1, 10, 25, 26, 27, 64, 200, 8192}, sending to a unix datagram socket: no datagram longer than n, whole messages only, the metrics arrive once n allows",
+        rule: "for every max_payload_len in {0..72 (thorough 0..260), boundary values around the longest payload, 8192} x length prefix {off,on} x prefix {None,p,pre} x global labels {[],[g:1]}: every sequence of the stated depth over 19 operations (counter/gauge with extreme values and optional timestamp, histogram/distribution with 0,1,2,3,40 values incl. NaN / +-inf / -0 / MAX / MIN_POSITIVE and optional sample rate, the same key with two different sample rates, names of length 0..12 and one of 20000 bytes, labels with empty value, drain) on one real PayloadWriter, plus a final drain, with a second, unrelated writer used before every operation (what it emits must equal what it emits when used alone); every drained payload is parsed by an independent DogStatsD parser and matched against the writes since the previous drain (name, type, tags, values in order at round-trip precision, length prefix, size limit, written/dropped accounting); plus, through State::flush (which chooses the prefix and labels a metric gets), every (prefix, name) pair over 6 prefixes incl. the empty one and 12 names that begin with / equal / contain the prefix text, for the three kinds; distinct = distinct (config class, drain shape) states; plus exporters built through the public builder with with_maximum_payload_length(n), n in {0, 1, 10, 25, 26, 27, 64, 200, 8192}, sending to a unix datagram socket: no datagram longer than n, whole messages only, the metrics arrive once n allows; and builders given a unix address before the UDP address they finally use, without an explicit limit: UDP datagrams of at most 1432 bytes, all values arrive",
         assumptions: &["strings in names/tags are benign (no ':' '|' ',' or newline): the DogStatsD protocol has no escaping and the property does not ask for any"],
         parts,
         run,
